@@ -52,6 +52,7 @@ pub enum COp {
     Remove(Vec<u8>),
     RRange(String, String),
     Get(Vec<u8>),
+    GetRange(Vec<u8>, u64, u64),
     Ckpt,
     Cleanup,
 }
@@ -64,6 +65,7 @@ pub fn parse_cop(s: &str) -> COp {
         ["remove", k] => COp::Remove(unhx(k)),
         ["rrange", lo, hi] => COp::RRange(lo.to_string(), hi.to_string()),
         ["get", k] => COp::Get(unhx(k)),
+        ["grange", k, s, e] => COp::GetRange(unhx(k), s.parse().unwrap(), e.parse().unwrap()),
         ["ckpt"] => COp::Ckpt,
         ["cleanup", ..] => COp::Cleanup,
         _ => panic!("bad concurrent op {s}"),
@@ -112,6 +114,11 @@ fn exec_op<K: HKey>(cas: &Cas<K>, stats: Option<&OrphanStats<K>>, op: &COp) -> S
             match cas.remove_range((pl(lo), ph(hi))) { Ok(n) => format!("count_{n}"), Err(e) => err(e) }
         }
         COp::Get(k) => match cas.get(&key(k)) {
+            Ok(None) => "absent".into(),
+            Ok(Some(b)) => format!("found_{}", hx(&b)),
+            Err(e) => err(e),
+        },
+        COp::GetRange(k, s, e) => match cas.get_range(&key(k), *s, *e) {
             Ok(None) => "absent".into(),
             Ok(Some(b)) => format!("found_{}", hx(&b)),
             Err(e) => err(e),
@@ -166,6 +173,11 @@ pub fn run<K: HKey>(cas: &Cas<K>, stats: Option<&OrphanStats<K>>, dir: &std::pat
     let ctl = Arc::new(Ctl { states: Mutex::new(vec![TState::Running; n]), cv: Condvar::new() });
     *CTL.lock().unwrap() = Some(ctl.clone());
     let results: Arc<Mutex<Vec<Vec<String>>>> = Arc::new(Mutex::new(vec![Vec::new(); n]));
+    // an idle thread whose next operation begins with an index read cannot start while the state
+    // lock is held exclusively (get_range's size pre-check has no yield point before it)
+    let starts_with_state_read = |t: usize, done: usize| -> bool {
+        matches!(programs.get(t).and_then(|p| p.get(done)), Some(COp::GetRange(..)))
+    };
     let mut sched: Vec<usize> = Vec::new();
     let mut obs: Vec<String> = Vec::new();
     std::thread::scope(|scope| {
@@ -200,7 +212,9 @@ pub fn run<K: HKey>(cas: &Cas<K>, stats: Option<&OrphanStats<K>>, dir: &std::pat
             let st = ctl.states.lock().unwrap().clone();
             if st.iter().all(|s| *s == TState::Done) { break; }
             let mask = cas.verif_lock_mask() & 3;
+            let done_counts: Vec<usize> = results.lock().unwrap().iter().map(|r| r.len()).collect();
             let enabled: Vec<usize> = (0..n).filter(|&t| match &st[t] {
+                TState::Parked(p) if p == "idle" => !(starts_with_state_read(t, done_counts[t]) && mask & 2 != 0),
                 TState::Parked(p) => match wants(p) { 1 => mask & 1 == 0, 2 | 3 => mask & 2 == 0, _ => true },
                 _ => false,
             }).collect();
@@ -237,7 +251,10 @@ pub fn run<K: HKey>(cas: &Cas<K>, stats: Option<&OrphanStats<K>>, dir: &std::pat
             let st = ctl.states.lock().unwrap().clone();
             if st.iter().all(|s| *s == TState::Done) { break; }
             let mask = cas.verif_lock_mask() & 3;
-            let next = (0..n).find(|&t| match &st[t] { TState::Parked(p) => match wants(p) { 1 => mask & 1 == 0, 2 | 3 => mask & 2 == 0, _ => true }, _ => false });
+            let dc: Vec<usize> = results.lock().unwrap().iter().map(|r| r.len()).collect();
+            let next = (0..n).find(|&t| match &st[t] {
+                TState::Parked(p) if p == "idle" => !(starts_with_state_read(t, dc[t]) && mask & 2 != 0),
+                TState::Parked(p) => match wants(p) { 1 => mask & 1 == 0, 2 | 3 => mask & 2 == 0, _ => true }, _ => false });
             match next {
                 Some(t) => {
                     let mut s = ctl.states.lock().unwrap();
